@@ -5,7 +5,8 @@
    FailCircuit / DeleteCircuits calls, with every transaction succeeding or
    failing, and restarts at any point. *)
 From stdpp Require Import gmap.
-From LV Require Import Circuit.Model Circuit.Spec Circuit.Proofs Circuit.RestartProofs Circuit.RollbackProofs.
+From LV Require Import Circuit.Model Circuit.Spec Circuit.Discipline Circuit.Proofs Circuit.RestartProofs
+  Circuit.RollbackProofs Circuit.DisciplineProofs.
 Local Open Scope N_scope.
 
 (* Between two CommitCircuits memory phases that both decide Add for the same
@@ -142,3 +143,25 @@ Proof.
   - intros Hwf ks c1 k1 H. exact (rollback_delete_cfg c t ks c1 k1 Hwf Ht H).
   - intros ch s c1 outs H. exact (trim_no_rollback c t ch s c1 outs Ht H).
 Qed.
+
+(* The state-level hypotheses above are what the CALL DISCIPLINE of link.go /
+   switch.go maintains.  For every sequential history (each call run to completion,
+   its transaction committing or failing; restarts anywhere) in which
+     - every OpenCircuits batch has pairwise distinct incoming and outgoing keys and
+       only opens circuits that are pending and half-open (link.go:2034: one keystone
+       per Add packet, outgoing index fresh from channel.AddHTLC),
+     - DeleteCircuits is only called for circuits that were answered through
+       CloseCircuit / FailCircuit (switch.go:1412, link.go:1971, :1814),
+     - at a restart the disk holds one keystone per circuit,
+   the memory of the circuit map stays coherent: every pending circuit has its
+   object, a circuit that claims a keystone is the circuit opened under it, and every
+   open circuit is the keystone of a pending circuit (no dangling or stolen
+   keystones: API hazards 1 and 4 of notes/C07.md cannot arise); in particular
+   wf_out holds, so C07_rollback's DeleteCircuits clause applies in every such state.
+   (Concurrent histories are covered by C07_add_once / C07_one_response_per_run,
+   which need no discipline.) *)
+Theorem C07_discipline_invariant : forall ops,
+  seq_disciplined init ops ->
+  let c := srun init ops in
+  c_thr c = ∅ /\ mem_coherent (c_mem c) /\ wf_out (c_mem c).
+Proof. exact discipline_invariant. Qed.
